@@ -86,6 +86,39 @@ def check_map_ops_unit(rep, ctx):
         rep.add(Query("witness: %s has a succeeding path" % fn, "witness-hit" if n else "witness-missed", "%d" % n, 0, "mirsym"))
 
 
+def check_sender_unit(rep, ctx):
+    """the upstream connection of an attributed accept goes where the record says: build_http_sender(host, port) connects to exactly
+    "<host>:<port>" of its arguments and hands back the sender of the handshake on that stream"""
+    c = [p for p in ctx.idx.files if re.search(r"hyper_client::build_http_sender::\{closure#0\}$", p)]
+    if len(c) != 1:
+        rep.add(Query("build_http_sender located", "inconclusive", "%d candidates" % len(c), 0, "mirsym", key="C07.sender-unit"))
+        return
+    eng = ctx.engine(loop_bound=1)
+    n = 0
+    for i, r in enumerate(eng.explore(c[0])):
+        if not (r.status == "return" and isinstance(r.ret, Agg) and r.ret.variant == "Ok"):
+            continue
+        n += 1
+        env = origin(r.args[0])
+        ev = r.events
+        cn = [e for e in ev if e.kind == "await" and re.search(r"TcpStream::connect$", e.callee)]
+        hs = [e for e in ev if e.kind == "await" and re.search(r"http1::handshake$|(^|::)handshake$", e.callee)]
+        ok = len(cn) == 1 and len(hs) == 1
+        detail = "connect %d, handshake %d" % (len(cn), len(hs))
+        if ok:
+            addr = origin(cn[0].rargs[0])
+            leaves = [origin(l) for l in fmt_leaves(addr) if not isinstance(origin(l), (StrV, ConstV))]
+            from_args = len(leaves) == 2 and all(isinstance(l, Sym) and is_part_of(l, env) for l in leaves)
+            lits = [origin(l).e.as_string() for l in fmt_leaves(cn[0].rargs[0]) if isinstance(origin(l), StrV)]
+            io = [e for e in ev if e.kind == "call" and e.callee.endswith("TokioIo::new") and e.ret is origin(hs[0].rargs[0])]
+            on_stream = derives(hs[0].rargs[0], cn[0].ret, ev) or (bool(io) and derives(io[0].rargs[0], cn[0].ret, ev))
+            ok = from_args and on_stream and derives(r.ret.fields[0], hs[0].ret, ev)
+            detail = "address formatted from %d argument value(s); the sender returned comes from the handshake on that stream: %s" % (len(leaves), ok)
+        rep.add(Query("build_http_sender path %d: connects to \"<host>:<port>\" of its arguments and returns that connection's sender" % i, "holds" if ok else "violated", detail, 0, "mirsym", key="C07.sender-unit", reproduced=None))
+    rep.functions_encoded.append(c[0])
+    rep.add(Query("witness: build_http_sender has a succeeding path", "witness-hit" if n else "witness-missed", "%d" % n, 0, "mirsym"))
+
+
 def check(rep, tier, seed):
     ctx = Ctx("agent")
     rep.extra["mir_dump"] = {"cache_hit": ctx.dump.cache_hit, "tree_hash": ctx.dump.hash, "seconds": round(ctx.dump.seconds, 1)}
@@ -256,6 +289,7 @@ def check(rep, tier, seed):
                           "how Process::from_pid and get_user inspect the process / user database"]
     check_claims_unit(rep, ctx)
     check_map_ops_unit(rep, ctx)
+    check_sender_unit(rep, ctx)
     rep.trusted += ["mirsym", "z3"]
     import batteries
     batteries.confirm(rep, "C07")
